@@ -9,25 +9,25 @@ VERIF = os.path.dirname(HERE)
 sys.path.insert(0, VERIF)
 
 LEVEL_TEXT = {
-    "C01": "Forest invariant evaluated after every executed call; every hook fault position (once / twice / persistent, vetoes of five exception classes, plus a restricted re-entrant hook; hooks read derived attributes of their node) is enumerated for every forest over <=3 nodes and (thorough) <=4 nodes, in both assertion modes, plus random histories and the repository's own tests under an in-situ wrapper. Held on the executions listed in the evidence, not a proof.",
+    "C01": "Forest invariant evaluated after every executed call; every hook fault position (once / twice / persistent, vetoes of five exception classes, plus a restricted re-entrant hook; hooks read derived attributes of their node) is enumerated for every forest over <=3 nodes and (thorough) <=4 nodes, in both assertion modes, plus random histories (every other shard after ambient use of the rest of the API), ten further node families (value-equal, falsy, list- and tuple-derived, symlink mixes) and the repository's own tests under an in-situ wrapper; assertion-off shards alternate between the variable unset and '0', and the switch itself is monitored. Held on the executions listed in the evidence, not a proof.",
     "C02": "Outcome class and complete post-state of every fault-free call compared with an executable sequential model, exhaustively for all forests over <=4 nodes (thorough: 5) and all call arguments incl. constructors; bounded exhaustive + random histories, no proof.",
     "C03": "Every raising call (invalid request or pre-hook veto at every enumerated hook position) has its complete pre/post snapshot compared; recorded known mechanisms are recognised only by exact predicted defective state (as-implemented simulator), everything else is a violation.",
     "C04": "Every navigation attribute / util helper of every node compared by identity with reference definitions, on all ordered trees up to 7 (thorough 10) nodes, random and deep shapes, eight node families (value-equality, falsy, mapping-like, slotted classes), and after every step of mutation histories on the same objects.",
     "C05": "Yielded sequences of the five iterators compared with independently computed orders for every start node of all ordered trees up to 8 (thorough 11) nodes, random/deep shapes and mutation histories; grouped iterators also consumed as a stream.",
-    "C06": "All five iterators under every (stop set, filter set, maxlevel) combination on all trees up to 5 (thorough 6) nodes compared with the restriction of the reference order; exhaustive in that scope, sampled beyond.",
+    "C06": "All five iterators under every (stop set, filter set, maxlevel) combination on all trees up to 5 (thorough 6) nodes compared with the restriction of the reference order; exhaustive in that scope, sampled beyond; predicates in five spellings, int-subclass maxlevel, iterators prepared before the predicates settle, and a raising predicate that no iterator may swallow.",
     "C07": "Resolver.get results / exact error classes compared with a reference path interpreter for all short paths on all small trees and random hostile names, all-pairs round trips, long-lived resolvers under renames and moves.",
     "C08": "Resolver.glob results compared with a set-semantics reference incl. order/duplicate/strict/get-agreement clauses; cache transparency monitored by replaying queries inside different call histories; long-lived resolvers under renames and moves.",
-    "C09": "RenderTree rows compared with reference rows and an independent decoder that rebuilds the tree from the text; all trees up to 7 (thorough 9) nodes x styles x childiters x maxlevel; text/repr oracles on random multi-line data.",
+    "C09": "RenderTree rows compared with reference rows and an independent decoder that rebuilds the tree from the text; all trees up to 7 (thorough 9) nodes x styles x childiters x maxlevel; text/repr oracles on random multi-line data; nested and long-lived RenderTree objects across mutations; a raising lazy childiter must propagate.",
     "C10": "Exported dictionaries compared with an independent serialiser (dict class at every level), import/export round trips and argument immutability on all trees up to 6 (thorough 8) nodes x options x node classes and random rich attributes.",
     "C11": "Exported JSON text compared with json.dumps of the independently built reference dictionary under the same options; write/read agreement incl. a real file; rebuilt trees compared structurally.",
     "C12": "Emitted DOT lines parsed back with an independent unescaper and compared with the admitted sub-forest for every stop set x filter set x maxlevel on all trees up to 5 (thorough 6) nodes, hostile/colliding names, custom functions, predicates changing between iterations.",
     "C13": "Emitted Mermaid lines parsed back and compared with the admitted sub-forest for every stop set x filter set x maxlevel on all trees up to 5 (thorough 6) nodes; identifier stability across iterations and predicate changes.",
-    "C14": "search / cachedsearch results and CountError (class and numbers) compared with the reference pre-order restriction for every bound pair around the match count on all trees up to 6 (thorough 7) nodes; cached vs uncached after every mutation.",
+    "C14": "search / cachedsearch results and CountError (class and numbers) compared with the reference pre-order restriction for every bound pair around the match count on all trees up to 6 (thorough 7) nodes; cached vs uncached after every mutation; raising and stateful callbacks compared with PreOrderIter; value-equal, unhashable, slotted and tuple-named node classes.",
     "C15": "Walker.walk triples compared with LCA path arithmetic for all ordered pairs on all trees up to 8 (thorough 10) nodes, cross-tree pairs, deep shapes (a 1 500-level chain), value-semantics classes and mutation histories.",
-    "C16": "Online trace automaton over the hook log with whole-forest snapshots inside every hook (bracketing, observation semantics, exact log for successful calls, prefix log for single faults), same enumeration as C01.",
+    "C16": "Online trace automaton over the hook log with whole-forest snapshots inside every hook (bracketing, observation semantics, exact log for successful calls, prefix log for single faults), observation and group-wrap rules under three restricted re-entrant hooks, same enumeration as C01.",
     "C17": "Special-method probes attributed to library frames (zero invocations allowed) and differential execution of the complete API battery + structural calls on plain vs adversarial classes over a trait matrix (quick: sampled, thorough: full).",
     "C18": "Lock-step differential execution of identical call histories (faults included) on NodeMixin and LightNodeMixin universes (plain, value-equality and always-falsy class pairs), plus the complete read-only battery after static forests and histories.",
-    "C19": "Copies by pickle (all protocols) and deepcopy walked in parallel with the original to build a bijection; id-disjointness, forest invariant on the copy, two-sided independence under mutation; all trees up to 6 (thorough 8) nodes x entry node x class mixes.",
+    "C19": "Copies by pickle (all protocols) and deepcopy walked in parallel with the original to build a bijection; id-disjointness, forest invariant on the copy, two-sided independence under mutation; all trees up to 6 (thorough 8) nodes x entry node x 13 class mixes, half of the trees used by the whole read-only API before they are copied.",
     "C20": "History monitor with a shadow attribute store per final target and the structural reference model over link and target positions; 2 000 (thorough 200 000) interleaved histories plus directed constructor-keyword cases.",
 }
 DESIGN_REF = {p: "DESIGN.md section 4, %s" % p for p in ["C%02d" % i for i in range(1, 21)]}
